@@ -21,13 +21,6 @@ def Closed (A B : TA) (D : List (Nat × Nat)) : Prop :=
 def InjOn (m : Nat × Nat → Nat) (D : List (Nat × Nat)) : Prop :=
   ∀ x, x ∈ D → ∀ y, y ∈ D → m x = m y → x = y
 
-theorem mem_post {A : TA} {f : Nat} {ss : List (List Nat)} {q : Nat} :
-    q ∈ post A f ss ↔ ∃ r, r ∈ A.rules ∧ r.sym = f ∧ matchKids r.kids ss = true ∧ r.parent = q := by
-  simp only [post, List.mem_map, List.mem_filter, Bool.and_eq_true, beq_iff_eq]
-  constructor
-  · rintro ⟨r, ⟨h1, h2, h3⟩, h4⟩; exact ⟨r, h1, h2, h3, h4⟩
-  · rintro ⟨r, h1, h2, h3, h4⟩; exact ⟨r, ⟨h1, h2, h3⟩, h4⟩
-
 theorem mem_prodRules {A B : TA} {D : List (Nat × Nat)} {m : Nat × Nat → Nat} {ρ : Rule} :
     ρ ∈ prodRules A B D m ↔ ∃ r, r ∈ A.rules ∧ ∃ r', r' ∈ B.rules ∧ r'.sym = r.sym ∧ r'.kids.length = r.kids.length ∧
       (r.parent, r'.parent) ∈ D ∧ ρ = ⟨r.sym, (r.kids.zip r'.kids).map m, m (r.parent, r'.parent)⟩ := by
